@@ -683,6 +683,7 @@ func TestVerifSendBatch(t *testing.T) {
 		name := fmt.Sprintf("connection-died-while-idle/%d", rep2)
 		var kinds []string
 		returned := false
+		idleExecs := map[string]int{}
 		verifsim.Bubble(t, func(t *testing.T) {
 			tr := &verifsim.Trace{}
 			cl := verifsim.NewCluster(tr)
@@ -721,15 +722,126 @@ func TestVerifSendBatch(t *testing.T) {
 			}
 			cancel()
 			time.Sleep(time.Second)
+			cl.Lock()
+			for _, e := range cl.Execs {
+				idleExecs[e.Row]++
+			}
+			cl.Unlock()
 			c.Close()
 			time.Sleep(time.Minute)
 			synctest.Wait()
 		})
 		ran++
+		for _, k := range []string{"a1", "n1", "a2", "a3"} {
+			if idleExecs[k] != 1 {
+				rep.bad("batch-call-not-executed-once", "%s: the put of row %s was executed %d times; a connection found dead is a retryable outcome: "+
+					"every call of the batch is executed once on the connection that replaces it", name, k, idleExecs[k])
+			}
+		}
 		if !returned {
 			rep.bad("batch-never-returns", "%s: SendBatch has not returned 3 virtual minutes after being handed to a connection that had died while idle", name)
 		} else if fmt.Sprint(kinds) != "[ok ok ok ok]" {
 			rep.bad("batch-results-differ", "%s: SendBatch returned %v; every call succeeds after the connection is replaced", name, kinds)
+		}
+	}
+	// ---- a call's OWN context ends while the server still holds the multi that carries it (its action was serialised, its
+	// result will come with cells in the shared cellblock): the other calls of that multi keep their own answers - each
+	// takes ITS cells from the cellblock - and are not sent again
+	for rep2 := 0; rep2 < 4; rep2++ {
+		name := fmt.Sprintf("own-context-ends-while-the-server-holds-the-multi/%d", rep2)
+		var kinds []string
+		execs := map[string]int{}
+		verifsim.Bubble(t, func(t *testing.T) {
+			tr := &verifsim.Trace{}
+			cl := verifsim.NewCluster(tr)
+			cl.AddServer("ms:1")
+			cl.AddServer("s1")
+			cl.CreateTable("t", nil, []string{"s1"})
+			for _, k := range []string{"a1", "a2"} {
+				cl.PutRow("t", []byte(k), []verifsim.KV{{Row: []byte(k), Family: []byte("f"), Qualifier: []byte("q"), Timestamp: 1, Type: 4, Value: []byte("stored-" + k)}})
+			}
+			c := newSimClient(cl, RpcQueueSize(10), FlushInterval(time.Millisecond))
+			g, _ := hrpc.NewGet(context.Background(), []byte("t"), []byte("a0"))
+			c.Get(g)
+			synctest.Wait()
+			hold := make(chan struct{})
+			var held atomic.Bool
+			cl.Lock()
+			cl.Rules = append(cl.Rules, func(_ *verifsim.Cluster, rs *verifsim.RS, sc *verifsim.ServerConn, req *verifsim.Request, rn []byte) *verifsim.Directive {
+				if req.Method == "Multi" && held.CompareAndSwap(false, true) {
+					return &verifsim.Directive{Hold: hold}
+				}
+				return nil
+			})
+			cl.Unlock()
+			own, cancelOwn := context.WithCancel(context.Background())
+			defer cancelOwn()
+			bctx, cancelBatch := context.WithCancel(context.Background())
+			defer cancelBatch()
+			mk := func(ctx context.Context, row string) hrpc.Call {
+				g, _ := hrpc.NewGet(ctx, []byte("t"), []byte(row))
+				return g
+			}
+			inc, _ := hrpc.NewInc(context.Background(), []byte("t"), []byte("a3"), map[string]map[string][]byte{"f": {"n": {0, 0, 0, 0, 0, 0, 0, 1}}})
+			batch := []hrpc.Call{mk(own, "a1"), mk(context.Background(), "a2"), inc}
+			if rep2%2 == 1 { // the call that gives up is not the first of its multi
+				batch = []hrpc.Call{mk(context.Background(), "a2"), mk(own, "a1"), inc}
+			}
+			done := make(chan struct{})
+			var res []hrpc.RPCResult
+			go func() { res, _ = c.SendBatch(bctx, batch); close(done) }()
+			time.Sleep(100 * time.Millisecond)
+			synctest.Wait()
+			cancelOwn()
+			synctest.Wait()
+			close(hold)
+			time.Sleep(10 * time.Millisecond) // (less than the first back-off: whatever is retried has not come back yet)
+			synctest.Wait()
+			cancelBatch()
+			time.Sleep(time.Second)
+			synctest.Wait()
+			select {
+			case <-done:
+				for i, r := range res {
+					k := sbKind(r)
+					if gg, isGet := batch[i].(*hrpc.Get); isGet && k == "ok" {
+						gr, _ := r.Msg.(*pb.GetResponse)
+						if rr := hrpc.ToLocalResult(gr.GetResult()); rr == nil || len(rr.Cells) != 1 || !bytes.Equal(rr.Cells[0].Row, gg.Key()) ||
+							string(rr.Cells[0].Value) != "stored-"+string(gg.Key()) {
+							k = fmt.Sprintf("ok-with-foreign-content(%v)", r.Msg)
+						}
+					}
+					if string(batch[i].Key()) == "a1" && k == "ok" {
+						k = "ctx" // (its answer and the end of its context race: either is its own outcome)
+					}
+					kinds = append(kinds, string(batch[i].Key())+":"+k)
+				}
+			default:
+				kinds = []string{"SendBatch did not return"}
+			}
+			time.Sleep(time.Minute)
+			synctest.Wait()
+			cl.Lock()
+			for _, e := range cl.Execs {
+				if e.Row == "a3" {
+					execs[e.Row]++
+				}
+			}
+			cl.Unlock()
+			c.Close()
+			time.Sleep(time.Minute)
+			synctest.Wait()
+		})
+		ran++
+		want := "[a1:ctx a2:ok a3:ok]"
+		if rep2%2 == 1 {
+			want = "[a2:ok a1:ctx a3:ok]"
+		}
+		if fmt.Sprint(kinds) != want {
+			rep.bad("batch-results-differ", "%s: SendBatch returned %v; the server answered every action of the multi, each call's own outcome is %s", name, kinds, want)
+		}
+		if execs["a3"] > 1 {
+			rep.bad("batch-call-executed-twice", "%s: the increment of row a3 was executed %d times (its success had been received)", name, execs["a3"])
 		}
 	}
 	rep.Scenarios = ran
